@@ -1,5 +1,156 @@
 import ZoektModel.Basic.Proto
+import ZoektModel.C02.Spec
+import ZoektModel.C03.Render
 namespace ZoektModel.C02
-/-- stub: no model driver for C02 yet -/
-def main : IO Unit := ZoektModel.Proto.runLines (fun _ => ZoektModel.Proto.badCase "no model driver for C02")
+open ZoektModel ZoektModel.Proto ZoektModel.C03
+
+/-- atoms: `kind:wrap:known:cands` joined by `;` (`-` = none) -/
+def parseAtoms (s : String) : Option (List Atom) :=
+  if s == "-" then some [] else
+  (s.splitOn ";").mapM fun a =>
+    match a.splitOn ":" with
+    | [k, w, kn, cs] => do pure ⟨← k.toNat?, ← w.toNat?, (← kn.toNat?) == 1, ← parseCands cs⟩
+    | _ => none
+
+/-- match trees: `a<kind>[cands]` atom, `x` other leaf, `A(..)` and, `O(..)` or, `L(..)` andLine with children
+    `<known 0|1><tree>` separated by `;`, and the unary `N` not, `V` noVisit, `F` fileName, `B` boost, `S` symbolSubstr -/
+partial def parseMT : List Char → Option (MT × List Char)
+  | 'x' :: r => some (.other, r)
+  | 'a' :: k :: '[' :: r =>
+    let body := r.takeWhile (· != ']')
+    let rest := (r.dropWhile (· != ']')).drop 1
+    match (String.ofList [k]).toNat?, (if body.isEmpty then some [] else parseCands (String.ofList body)) with
+    | some kind, some cs => some (.atom kind cs, rest)
+    | _, _ => none
+  | 'N' :: r => (parseMT r).map fun (t, r') => (.not t, r')
+  | 'V' :: r => (parseMT r).map fun (t, r') => (.noVisit t, r')
+  | 'F' :: r => (parseMT r).map fun (t, r') => (.fileName t, r')
+  | 'B' :: r => (parseMT r).map fun (t, r') => (.boost t, r')
+  | 'S' :: r => (parseMT r).map fun (t, r') => (.symbolSubstr t, r')
+  | c :: '(' :: r =>
+    if c != 'A' && c != 'O' && c != 'L' then none else
+    let rec children (cs : List Char) (acc : List (Bool × MT)) : Option (List (Bool × MT) × List Char) :=
+      match cs with
+      | ')' :: r' => some (acc.reverse, r')
+      | ';' :: r' => children r' acc
+      | k :: r' =>
+        match parseMT r' with
+        | some (t, r'') => children r'' ((k == '1', t) :: acc)
+        | none => none
+      | [] => none
+    match children r [] with
+    | some (ch, r') => some ((if c == 'A' then MT.and ch else if c == 'O' then MT.or ch else MT.andLine ch), r')
+    | none => none
+  | _ => none
+
+def parseHexList (s : String) : Option (List Bytes) :=
+  if s == "_" then some [] else (s.splitOn ";").mapM hexToBytes?
+
+def showPairs (l : List (Nat × Nat)) : String := showList (fun p => s!"{p.1}.{p.2}") l
+
+def parsePairs (s : String) : Option (List (Nat × Nat)) :=
+  if s == "-" then some [] else
+  (s.splitOn ",").mapM fun e =>
+    match e.splitOn "." with
+    | [a, b] => do pure (← a.toNat?, ← b.toNat?)
+    | _ => none
+
+/-- byte offsets at which the runes of `data` start, plus the end offset: the specification of `findOffset` -/
+def runeStarts : Nat → Bytes → Nat → List Nat
+  | _, [], pos => [pos]
+  | 0, b :: rest, pos => pos :: runeStarts (runeSize (b :: rest) - 1) rest (pos + 1)
+  | k + 1, _ :: rest, pos => runeStarts k rest (pos + 1)
+
+def parseKind (s : String) : Option QKind :=
+  if s == "multi" then some .multi
+  else if s == "occs" then some .occs
+  else if s.startsWith "re:" then (parsePairs (s.drop 3).toString).map .regexp
+  else if s.startsWith "sub:" then (hexToBytes? (s.drop 4).toString).map .substr
+  else none
+
+def handle (line : String) : String :=
+  let (inp, impl) := splitCase line
+  match fields inp with
+  -- gather <nameHex> <rootOr> <atoms>
+  | ["gather", nameHex, _rootOr, atoms] =>
+    match hexToBytes? nameHex, parseAtoms atoms with
+    | some name, some atoms =>
+      let model := showCands (gatherMatches name atoms)
+      match parseCands impl with
+      | none => badCase "impl cands"
+      | some got =>
+        if checkGather name (collect atoms) got then answer model else specFail model "gather"
+    | _, _ => badCase "gather fields"
+  -- gathert <nameHex> <tree>: gatherMatches over a real (nested) match tree
+  | ["gathert", nameHex, tree] =>
+    match hexToBytes? nameHex, parseMT tree.toList with
+    | some name, some (t, []) =>
+      let model := showCands (gatherTree name t)
+      match parseCands impl with
+      | none => badCase "impl cands"
+      | some got => if checkGather name (visit t) got then answer model else specFail model "gather"
+    | _, _ => badCase "gathert fields"
+  -- brk <textHex> <cands>
+  | ["brk", textHex, cands] =>
+    match hexToBytes? textHex, parseCands cands with
+    | some text, some cands =>
+      let model := showCands (breakMatchesOnNewlines text cands)
+      match parseCands impl with
+      | none => badCase "impl cands"
+      | some got =>
+        let want := cands.flatMap fun c => (cutAtNL text c.off c.sz).map fun p => (⟨c.fileName, p.1, p.2⟩ : Cand)
+        if got == want then answer model else specFail model "break"
+    | _, _ => badCase "brk fields"
+  -- rom <offs> <runeOffsets>
+  | ["rom", offs, rs] =>
+    match natList? offs, natList? rs with
+    | some offs, some rs =>
+      let m := makeRuneOffsetMap offs
+      answer s!"m={showPairs (m.map fun c => (c.runeOffset, c.byteOffset))} res={showPairs (rs.map (lookup m))}"
+    | _, _ => badCase "rom fields"
+  -- findoff <fn> <idx> <contents> <names>: findOffset for every rune index 0..runeCount of document idx
+  | ["findoff", fn, idx, contents, names] =>
+    match bool? fn, idx.toNat?, parseHexList contents, parseHexList names with
+    | some fn, some idx, some contents, some names =>
+      let pc := Posting.ofDocs contents
+      let pn := Posting.ofDocs names
+      let plain := pc.plainASCII && pn.plainASCII
+      let doc := (if fn then names else contents).getD idx []
+      let n := runeCount doc
+      let p := if fn then pn else pc
+      let lim := if fn then none else some (readLen 4)
+      match natList? impl with
+      | none => if impl == "ERR" then specFail "?" "findoffset-error" else badCase "impl offsets"
+      | some got =>
+        -- the harness asks for every rune index of the document and (except at the very end of the corpus) for the
+        -- end-of-document index: n or n + 1 answers
+        if got.length < n || got.length > n + 1 then badCase "number of offsets" else
+        let model := showNatList ((List.range got.length).map (findOffset p plain lim idx))
+        if got == (runeStarts 0 doc 0).take got.length then answer model else specFail model "findoffset"
+    | _, _, _, _ => badCase "findoff fields"
+  -- e2e <mode> <ctx> <contentHex> <nameHex> <kind> <cands>
+  | ["e2e", mode, ctx, dataHex, nameHex, kind, cands] =>
+    match ctx.toNat?, hexToBytes? dataHex, hexToBytes? nameHex, parseKind kind, parseCands cands with
+    | some ctx, some data, some name, some kind, some cands =>
+      if mode == "l" then
+        let model := match reportLines data name ctx cands with
+          | none => "PANIC"
+          | some lms => showLines lms
+        if impl == "PANIC" then specFail model "panic" else
+        match parseLines impl with
+        | none => badCase "impl lines"
+        | some lms =>
+          if checkP data name true kind cands (rangesOfLines lms) then answer model else specFail model "ranges-lines"
+      else if mode == "c" then
+        let model := showChunks (reportChunks data name ctx cands)
+        if impl == "PANIC" then specFail model "panic" else
+        match parseChunks impl with
+        | none => badCase "impl chunks"
+        | some cms =>
+          if checkP data name false kind cands (rangesOfChunks cms) then answer model else specFail model "ranges-chunks"
+      else badCase "mode"
+    | _, _, _, _, _ => badCase "e2e fields"
+  | _ => badCase "op"
+
+def main : IO Unit := runLines handle
 end ZoektModel.C02
